@@ -5,6 +5,7 @@
 package media
 
 import (
+	"github.com/cnotch/ipchub/utils/simhook"
 	"sort"
 	"sync"
 	"sync/atomic"
@@ -42,6 +43,7 @@ func (m *consumptions) Add(c *consumption) {
 func (m *consumptions) Remove(cid CID) *consumption {
 	ci, ok := m.Load(cid)
 	if ok {
+		simhook.Y("consumptions.remove.beforeDelete")
 		m.Delete(cid)
 		atomic.AddInt32(&m.count, -1)
 		return ci.(*consumption)
